@@ -14,7 +14,10 @@ PROPERTY = "C20"
 RULE = ("seeded archive generator (independent writer): visor / mixed / plain archives, 0..200 members, files / directories / "
         "symlinks / empty files, data areas in header, reversed, shuffled or size order with gaps (zero or garbage), alignment "
         "1..4096, members aliasing other members' bytes, ustar prefix names, GNU long names, four number encodings (incl. GNU "
-        "base-256), gzip-wrapped archives, data offsets at and beyond 2^31 (sparse 4 GiB files); plus archives WRITTEN BY THE "
+        "base-256), gzip-wrapped archives, data offsets at and beyond 2^31 (sparse 4 GiB files); directed in every run: visor headers "
+        "whose byte 264 behind the 7-byte magic is blank / '0' / 0x01 / 0xFF / ... instead of NUL (visor and mixed archives, plain and "
+        "gzip), standard members whose magic field is a near miss of the visor magic, data-area members whose content is itself a tar archive at a "
+        "block-aligned position and archives followed by a second tar archive (the listing ends at the end-of-archive marker); plus archives WRITTEN BY THE "
         "LEAN WRITER of theorem vmtar_members_roundtrip (Hv/VmtarEnc.encode, run by the driver on generated member specs and "
         "layouts inside the theorem's WF: shuffled data areas with gaps, inline members, directories, empty files, extreme "
         "mode/uid/gid/mtime) and read back by the real vmtar.open. Every member's listing fields and "
@@ -114,6 +117,10 @@ def generate(seed, tier):
     for i in range(n):
         r = gen_vmtar.gen_recipe(rng, tier)
         cases.append({"id": f"g{i}", "recipe": r, "queries": ["list"]})
+    # directed, in every run: visor headers whose byte 264 (behind the 7-byte magic) is not NUL, standard members whose magic field
+    # is close to the visor magic; plain and gzip-wrapped (gen_vmtar.directed_recipes)
+    for i, r in enumerate(gen_vmtar.directed_recipes(seed, tier)):
+        cases.append({"id": f"d{i}", "recipe": r, "queries": ["list"]})
     cases += gen_enc_cases(random.Random(f"C20enc/{seed}/{tier}"), 40 if tier == "quick" else 300)
     return cases
 
@@ -202,7 +209,10 @@ def build(case):
                       | ({"long"} if any(m["long"] for m in rm) else set())
                       | ({"prefix"} if any(m["pre"] and not m["long"] for m in rm) else set())
                       | ({"gz"} if b["gz"] else set()) | ({"huge"} if r["huge"] else set())
-                      | ({"plain"} if b["plain"] else set()))
+                      | ({"plain"} if b["plain"] else set())
+                      | ({"visor-byte264-" + ("nul" if not m.get("b264") else "nonnul") for m in rm if m["visor"]})
+                      | ({"near-visor-magic"} if any(m["magic"].startswith("raw:") for m in rm) else set())
+                      | ({"tar-content"} if any(m.get("tar") for m in rm) else set()) | ({"tail-tar"} if r.get("tailtar") else set()))
     nt = len(rm) >= 2 and (any(m["visor"] and m["type"] == "file" and m["size"] > 0 and m["place"] in ("area", "alias") for m in rm)
                            or (b["plain"] and any(m["type"] == "file" and m["size"] > 0 for m in rm)))
     info = {"branches": branches, "in_scope": "prefix151" not in b["edges"], "compare_model_out_of_scope": True,
